@@ -28,6 +28,7 @@ func init() {
 			"schema declaring elements by index / component_index (present, beyond the segment, duplicated declarations) with default / empty_if_missing / " +
 			"neither, element nodes must carry the unescaped logical strings, one node per repetition, and a declared-but-absent element must be fatal unless " +
 			"a default exists. CR/LF rules exercised with formatting newlines anywhere (ignore_crlf) and CRLF line ends (newline delimiter). " +
+			"A third of the inputs leave the last segment unterminated (half of those end in a released delimiter or release character). " +
 			"distinct = digest(configuration, input); non-trivial = an escaped delimiter occurs inside a value or a delimiter is multi-byte.",
 		Assumptions: []string{
 			"delimiters are pairwise distinct and none is a substring of another (otherwise the format itself is ambiguous)",
